@@ -10,6 +10,7 @@ import (
 
 	"github.com/google/gce-tcb-verifier/gcetcbendorsement"
 	epb "github.com/google/gce-tcb-verifier/proto/endorsement"
+	tpb "github.com/google/go-tdx-guest/proto/tdx"
 	"google.golang.org/protobuf/proto"
 
 	"verifharness/core"
@@ -58,6 +59,14 @@ type dimRun struct {
 	efi   []efiCase
 	opt   []optCase
 	amp   []ampCase
+
+	// fifth round (dim_kinds.go)
+	zoo      []zooCert
+	zooCases []zooCase
+	tdxProto *tpb.QuoteV4
+	tdxEdits []pbEdit
+	tdxx     []tdxxCase
+	tweak    func(*env) // per-case adjustment of the drawn parameters in feed (nil = none)
 }
 
 func (d *dimRun) floor(name string) { d.flo[name] = true }
@@ -127,6 +136,13 @@ func (d *dimRun) dimSpecs() []dimSpec {
 	for k := range d.amp {
 		out = append(out, dimSpec{family: "amplify", a: k})
 	}
+	// appended in the fifth round (dim_kinds.go)
+	for k := range d.zooCases {
+		out = append(out, dimSpec{family: "certzoo", a: k})
+	}
+	for k := range d.tdxx {
+		out = append(out, dimSpec{family: "tdxextract", a: k})
+	}
 	return out
 }
 
@@ -145,6 +161,20 @@ func (w *world) runDims(c *core.Ctx, specs []spec, ents []*entry, lim *asLimiter
 	d.efi = w.mkEfiCases()
 	d.opt = w.mkOptCases(c.Thorough())
 	d.amp = mkAmpCases(c.Thorough())
+	for j, s := range specs {
+		if s.op != "big" && s.op != "genuine" && w.specKind(s) == "tdx" {
+			d.byKind["tdx-only"] = append(d.byKind["tdx-only"], j)
+		}
+	}
+	var zooWrong []string
+	d.zoo, zooWrong = w.mkCertZoo()
+	if len(zooWrong) == 0 {
+		d.floor("certzoo/every-certificate-parses-to-the-key-type-its-name-says")
+	} else {
+		c.Note("certificate zoo: %v", zooWrong)
+	}
+	d.zooCases = mkZooCases(len(d.zoo))
+	d.tdxx = d.mkTdxxCases()
 	dspecs := d.dimSpecs()
 	base := len(specs)
 	c.Max("appended-dimension-cases", int64(len(dspecs)))
@@ -191,6 +221,10 @@ func (w *world) runDims(c *core.Ctx, specs []spec, ents []*entry, lim *asLimiter
 			d.runConcurrent(i, ds, r)
 		case "amplify":
 			d.runAmp(i, d.amp[ds.a], r)
+		case "certzoo":
+			d.runZoo(i, d.zooCases[ds.a], r)
+		case "tdxextract":
+			d.runTdxx(i, d.tdxx[ds.a], r)
 		}
 		if k%97 == 0 {
 			c.Sample(map[string]any{"case": i, "family": ds.family})
@@ -235,7 +269,7 @@ func (d *dimRun) wantFloors() []string {
 	for _, n := range []int{8, 16, 64, 256, 1024} {
 		out = append(out, fmt.Sprintf("chunk/digest-count-of-exactly-%d-decoded", n))
 	}
-	return append(out, ampFloors()...)
+	return append(append(out, ampFloors()...), kindFloors()...)
 }
 
 // guarded is one monitored call of the appended families: case record first, budget of the input
@@ -301,6 +335,9 @@ func (d *dimRun) feed(i int, b []byte, gname, class, sname, kind string, r *rand
 		b = b[:maxInput]
 	}
 	e := d.mkEnv(b, r)
+	if d.tweak != nil {
+		d.tweak(e)
+	}
 	elWritten, first := false, true
 	for _, en := range d.ents {
 		if !cross && !en.native(kind) {
